@@ -17,6 +17,7 @@
 EXTENDS Props, Json, IOUtils
 
 Cases == JsonDeserialize(IOEnv.CASES)
+Which == IOEnv.WHICH          \* "views" (C16) | "tables" (C06: every table entry names a successor, every successor is named - after EVERY renaming)
 VARIABLES tid, bad
 
 RECURSIVE GrowL(_, _, _, _)
@@ -28,7 +29,11 @@ LevelOK(H, l) == /\ Cardinality(HeadsOf(H, l)) = 1
 Applies(c) == LET s == [H |-> c.Hs, root |-> c.root, dup |-> <<>>] IN
               /\ WellFormed(s)
               /\ \A l \in {c.root} \cup Regions(c.Hs) : LevelOK(c.Hs, l)
-Verdict(c) == IF Applies(c) THEN FailedViews(c.hook, [H |-> c.H, root |-> c.root, dup |-> c.dup]) ELSE {"n/a"}
+              /\ (Which = "tables" => FailedTables(c.Hs) = {})      \* an edit after which even the specified result has a table that
+                                                                  \* misses a successor (S with a member no arc of P enters) is a misuse
+Verdict(c) == IF ~Applies(c) THEN {"n/a"}
+              ELSE IF Which = "tables" THEN FailedTables(c.H)
+              ELSE FailedViews(c.hook, [H |-> c.H, root |-> c.root, dup |-> c.dup])
 
 Init == /\ tid \in 1..Len(Cases)
         /\ bad = Verdict(Cases[tid])
